@@ -73,6 +73,21 @@ def run(ctx):
             ctx.fail("conforming-encoding-misparsed:" + desc["magic"] + (":hashes" if desc["hashes"] else ""),
                      f"{desc}: got {a[:70]}", {"boc": h, "want": want})
     ctx.extra["encoder_freedoms"] = freed
+    # the same conforming bags given in the other accepted input forms (hex text in either case, base64 text; bytearray is not an input form the library accepts):
+    # all three magics must be recognised in every form, and give the same cells
+    import base64
+    nform = 0
+    byh = {e[0]: a for e, a in zip(enc, impl)}
+    for h, dag, roots, desc in (enc[:: max(1, len(enc) // ctx.n(120, 1200))]):
+        base_res = byh[h]
+        raw = bytes.fromhex(h)
+        for form_name, form in (("hex", h), ("HEX", h.upper()), ("base64", base64.b64encode(raw).decode())):
+            nform += 1
+            r = core.call_impl(lambda _: boc.py_parse_any(form), None)
+            if r != base_res:
+                ctx.fail("input-form-changes-result:" + form_name + ":" + desc["magic"],
+                         f"{desc['magic']} bag given as {form_name}: {r[:60]} vs bytes: {base_res[:60]}", {"boc": h, "form": form_name, "want": base_res})
+    ctx.extra["input_form_cases"] = nform
 
     # corruption: must raise
     corrupt = []
